@@ -529,7 +529,8 @@ def _phase_write(v, sub, ctx):
     if ch:
         ctx.fail(sub["op"], "alias", f"{sub['var']}: write to {leaf} changed {ch}", variant=direction,
                  case=dict(sub, changed=_plain(ch)))
-    if rsnap is not None and not v.share_ok:
+    if rsnap is not None and not v.share_ok and not sub["op"].startswith("alg."):
+        # (algorithm outputs carry wall-clock fields and ARPACK-dependent digits: not comparable across calls)
         _later_result_check(v, sub, ctx, rsnap, leaf)
     return 1
 
